@@ -40,6 +40,10 @@ func recoverSigners(sigHash common.Hash, sigs [][]byte) ([]common.Address, error
 		if err != nil {
 			return nil, err
 		}
+		// the tx hash contains the signatures. So only one form of a signature is accepted, or everyone could make a new tx from a signed one
+		if !crypto.ValidateSignature(sigs[i]) {
+			return nil, ErrInvalidSig
+		}
 		if len(pub) == 0 || pub[0] != 4 {
 			return nil, ErrPublicKey
 		}
